@@ -356,6 +356,49 @@ pub async fn scenario() {
 	if sweep_base {
 		rt::probe_n("steps", steps.len() as u64);
 	}
+	// ---- the limit is also what a request sees that comes in through the library's GET proxy: refused with 429, and
+	// the mapped method does not run
+	if rt::chance("proxy_refusal", 1, 8) {
+		rt::probe("proxy_refusal");
+		// (what happens here is kept out of the log the oracle over the history reads)
+		let keep = {
+			let l = world.log.lock().unwrap();
+			(l.invocations.len(), l.guard_obs.len(), l.mw.len())
+		};
+		let (stop, _handle) = jsonrpsee_server::stop_channel();
+		let http_mw = tower::ServiceBuilder::new().layer(jsonrpsee_server::middleware::http::ProxyGetRequestLayer::new([("/health", "echo")]).expect("valid path"));
+		let svc = jsonrpsee_server::Server::builder().set_config(jsonrpsee_server::ServerConfig::builder().max_connections(1).build()).set_http_middleware(http_mw).to_service_builder().build(world.methods.clone(), stop);
+		let mut holder = svc.clone();
+		let hold = rt::spawn("slot-holder", async move {
+			let body = b"{\"jsonrpc\":\"2.0\",\"id\":1,\"method\":\"slow\",\"params\":[1]}".to_vec();
+			let _ = tower::Service::call(&mut holder, world::post_request(body)).await;
+		});
+		tokio::time::sleep(Duration::from_millis(50)).await;
+		let before = world.log.lock().unwrap().invocations.iter().filter(|i| i.method == "echo").count();
+		let mut svc2 = svc.clone();
+		let req = http::Request::builder().method("GET").uri("/health").header("host", "sim.invalid").body(http_body_util::Full::new(bytes::Bytes::new())).unwrap();
+		match tower::Service::call(&mut svc2, req).await {
+			Ok(r) => {
+				let rep = world::collect_response(r).await;
+				let ran = world.log.lock().unwrap().invocations.iter().filter(|i| i.method == "echo").count() - before;
+				rt::event("proxy-refusal-reply", format!("{} {}", rep.status, String::from_utf8_lossy(&rep.body)));
+				if rep.status != 429 {
+					rt::violate(P, "wrong-refusal", format!("get-proxy:{}", rep.status), format!("with max_connections=1 and one request being processed, GET /health through the GET proxy was answered {} {:?} instead of 429", rep.status, String::from_utf8_lossy(&rep.body)));
+				}
+				if ran != 0 {
+					rt::violate(P, "handler-ran-for-refused", "get-proxy", "the mapped method ran for a request beyond the limit");
+				}
+			}
+			Err(e) => {
+				rt::event("proxy-service-error", format!("{e}"));
+			}
+		}
+		let _ = tokio::time::timeout(Duration::from_secs(2), hold).await;
+		let mut l = world.log.lock().unwrap();
+		l.invocations.truncate(keep.0);
+		l.guard_obs.truncate(keep.1);
+		l.mw.truncate(keep.2);
+	}
 	// ---------------- oracle over the history ----------------
 	let log = world.log.lock().unwrap();
 	// observations made by handlers
